@@ -776,7 +776,7 @@ func registerVFS() {
 				}
 			}
 			if !inside {
-				return in0.mkStr(ac.op+" "+ac.path)
+				return in0.mkStr(ac.op + " " + ac.path)
 			}
 		}
 		return in0.mkStr("")
